@@ -24,6 +24,11 @@ func newRealFS(fs *faultFS) *realFS {
 		panic(err)
 	}
 	r := &realFS{root: root, orig: map[string]string{}}
+	for _, d := range fs.dirs {
+		if err := os.MkdirAll(filepath.Join(root, d), 0700); err != nil {
+			panic(err)
+		}
+	}
 	for _, f := range fs.files {
 		p := filepath.Join(root, f.path)
 		if err := os.MkdirAll(filepath.Dir(p), 0700); err != nil {
